@@ -292,6 +292,12 @@ fn rep_case(r: &gen::RawPos, kind: u8, x: u16) -> RepCase {
     let mut p = gen::position(r, ClockDomain::Engine);
     p.ep = None;
     p.half = p.half.min(60);
+    // depth-1 third occurrences also deep inside a quiet stretch (the repeated position then has a clock beyond 100: it is a
+    // draw by repetition all the same, whatever the fifty-move rule says about it)
+    if kind <= 1 && x % 4 == 2 {
+        p.half = 93 + (x as u64 / 4 % 10);
+        p.full = p.full.max(60);
+    }
     let none = |p: &Pos| RepCase { fen: p.fen(), history: vec![], searchmove: String::new(), depth: 1, prior: None, new_game_after_prior: false, newgame_first: x % 16 >= 8 };
     let u = |m: Mv| m.uci();
     // kinds 8, 9: the first occurrence is CREATED by a capture or pawn move inside the move list
@@ -374,8 +380,16 @@ pub fn check_engine_rep(c: &RepCase, ctx: &mut Ctx) -> Result<(), String> {
             ctx.class("terminal_child");
             return Ok(());
         }
+        if occ < 3 && child.half >= 100 {
+            // (whether such a position is ALSO valued as a fifty-move draw is not asserted: the property only says "never earlier")
+            ctx.class("not_asserted_clock_ge_100_without_third_occurrence");
+            return Ok(());
+        }
         let ordinary = -leaf_value(&child);
         if occ >= 3 {
+            if child.half >= 100 {
+                ctx.class("third_occurrence_with_clock_ge_100");
+            }
             expected = vec![k, -k];
             draw_involved = true;
             ordinary_differs = ordinary != k && ordinary != -k;
@@ -692,4 +706,11 @@ fn deep_rep_case(r: &gen::RawPos, depth: u32, x: u16) -> crate::props::c08::Deep
     let plies = [0usize, 1, 2, 3, 4, 5, 6, 7, 8][(x % 9) as usize];
     let history: Vec<String> = (0..plies).map(|i| cyc[i % 4].uci()).collect();
     crate::props::c08::DeepCase { fen: p.fen(), history, depth }
+}
+
+/// a perpetual-check skeleton with a forced four-ply cycle (for session generators)
+pub fn perpetual_root(rs: &gen::RawSynth) -> Option<(Pos, [Mv; 4])> {
+    let q = perpetual_template(rs)?;
+    let c = forced_cycle(&q)?;
+    Some((q, c))
 }
